@@ -339,7 +339,12 @@ def io_textgrid(draw, rich=True, tokens=True, max_tiers=4, clean=True, styles=("
     pool = None
     if style == "wild":
         # distinct boundaries anywhere in the textgrid (tiers and span) stay further apart than the rounding C01 allows
-        pool = io_safe_boundaries(draw(st.lists(wild_time(), min_size=2, max_size=9)))
+        raw = draw(st.lists(wild_time(), min_size=2, max_size=9))
+        if draw(st.integers(0, 2)) == 0:
+            # a cluster of large integral times a few units apart: intervals far shorter than 1e-14 of their position
+            b = draw(st.sampled_from([10**12, 9 * 10**14, 10**15 - 100]))
+            raw += [float(b + k) for k in draw(st.lists(st.integers(0, 50), min_size=2, max_size=3, unique=True))]
+        pool = io_safe_boundaries(raw)
         if len(pool) < 2:
             pool = io_safe_boundaries(pool + [pool[0] + 1.0])
     for i in range(n):
